@@ -86,7 +86,10 @@ def atomOpShape : List PToken → Bool
        | _ => false)
   | [] => false
 
-/-- the partial claim asked for (binary operators of any priorities between atoms): stated, NOT proved end to end — it needs
+/-- (see `Garnish.Props.C02Parse.C04_parse_proper_fragment` / `C02_parse_fragment_precOK_inorder` for what is proved on the
+    fragment `value (trivia* binop trivia* value)*`: an accepted list yields a proper tree whose in-order walk is the
+    significant tokens.)
+    the partial claim asked for (binary operators of any priorities between atoms): stated, NOT proved end to end — it needs
     the array-level right-spine simulation; proved pieces are in Garnish/Lemmas/ParserInv.lean (`walkLoop_chain`: on a parent
     chain the capped walk never hits its cap and computes the bottom-up search; `step_binop_post`; trivia invisibility).
     The correspondence suite and TREECHK check the claim on every generated instance instead. -/
